@@ -155,3 +155,15 @@ Proof.
     + apply N.eqb_eq in E. rewrite E. reflexivity.
     + apply N.eqb_neq in E. replace (0 <? Z.of_N (Col p))%Z with true by lia. reflexivity.
 Qed.
+
+(* Parser.nextPos packs the raw bookkeeping exactly while it is below the limits *)
+Lemma next_pos_exact : forall o l c : Z,
+  (0 <= o <= Z.of_N offsetMax)%Z -> (0 <= l <= Z.of_N lineMax)%Z -> (0 <= c <= Z.of_N colMax)%Z ->
+  Z.of_N (Offset (next_pos o l c)) = o /\ Z.of_N (Line (next_pos o l c)) = l /\ Z.of_N (Col (next_pos o l c)) = c.
+Proof.
+  intros o l c Ho Hl Hc. unfold next_pos, to_uint.
+  replace (Z.min o (Z.of_N offsetMax)) with o by lia.
+  replace (l <=? Z.of_N lineMax)%Z with true by lia. replace (c <=? Z.of_N colMax)%Z with true by lia.
+  rewrite !Z.mod_small by (unfold two64, offsetMax, lineMax, colMax in *; lia).
+  destruct (pos_pack (Z.to_N o) (Z.to_N l) (Z.to_N c)) as (A & B & C); lia.
+Qed.
